@@ -62,15 +62,7 @@ static void check_all(djinterop::database& db, forest& f, std::vector<djinterop:
     for (size_t i = 0; i < f.n.size(); ++i)
     {
         auto& nd = f.n[i]; auto& c = h[i];
-        if (!nd.alive)
-        {
-            bool reused = false; for (auto& o : f.n) reused |= o.alive && o.id == nd.id;
-            if (verif_param("gen") == 1) CK(!reused, "C07: schema 1.x: the id of a removed crate was given to a new crate (ids collide; the stale handle is valid again)");
-            else CK(!reused, "C07: the id of a removed crate was given to a new crate (ids collide; the stale handle is valid again)");
-            CK(!c.is_valid(), "C07: handle of a removed crate reports is_valid()");
-            CK(!db.crate_by_id(nd.id).has_value(), "C07: crate_by_id returns a removed crate");
-            continue;
-        }
+        if (!nd.alive) continue;       // (removed crates are judged last, see below)
         CK(c.is_valid(), "C07: live crate reports !is_valid()");
         auto p = c.parent();
         if (nd.parent == -1) CK(!p.has_value(), "C07: parent() of a root crate is not absent");
@@ -88,6 +80,18 @@ static void check_all(djinterop::database& db, forest& f, std::vector<djinterop:
         bool found = false;      // (with duplicate sibling names - 1.x only - any of the namesakes)
         if (byname.has_value()) for (auto& o : f.n) found |= o.alive && o.id == byname->id() && o.parent == nd.parent && same_s(o.name, nd.name);
         CK(found && (verif_param("gen") == 1 || byname->id() == nd.id), "C07: lookup by parent and name does not find the crate");
+    }
+    // removed crates last: where a generation hands a removed crate's id out again (listed known finding of schema 1.x) the path ends here, after
+    // every live crate - including the one that inherited the id - has been compared with the reference forest
+    for (size_t i = 0; i < f.n.size(); ++i)
+    {
+        auto& nd = f.n[i]; auto& c = h[i];
+        if (nd.alive) continue;
+        bool reused = false; for (auto& o : f.n) reused |= o.alive && o.id == nd.id;
+        if (verif_param("gen") == 1) CK(!reused, "C07: schema 1.x: the id of a removed crate was given to a new crate (ids collide; the stale handle is valid again)");
+        else CK(!reused, "C07: the id of a removed crate was given to a new crate (ids collide; the stale handle is valid again)");
+        CK(!c.is_valid(), "C07: handle of a removed crate reports is_valid()");
+        CK(!db.crate_by_id(nd.id).has_value(), "C07: crate_by_id returns a removed crate");
     }
 }
 // the sibling list `obs` (ids observed after the operation) must be `old` with `x` inserted exactly once (anywhere, or right after `after` when given)
